@@ -42,7 +42,7 @@ def BOUNDS(tier):
 
 
 def REQUIRED_COVER(tier):
-    return {'registry', 'listdir-orders', 'ctor:boxed-alt', 'len:253', 'len:254', 'len:65536', 'flags:all-combos', 'vector:0', 'vector:3', 'nested-object', 'nested-sequence', 'registry-history', 'blockid',
+    return {'registry', 'listdir-orders', 'ctor:boxed-alt', 'len:253', 'len:254', 'len:65536', 'flags:all-combos', 'vector:0', 'vector:3', 'nested-object', 'nested-sequence', 'registry-history', 'failure-history', 'blockid',
             'string:utf8', 'vector:int', 'vector:int256', 'vector:bytes'}
 
 
@@ -590,6 +590,63 @@ def shard_pair_histories(rec, part, parts):
     rec.sample({'registry_history': 'fresh TlGenerator: liteServer.getOutMsgQueueSizes (all flag combinations), then every other constructor with optional fields'})
 
 
+def shard_failure_histories(rec):
+    """sixth session (wave 9): ONE registry object that has refused many inputs.  Valid values with nested objects in bytes fields are parsed,
+    then every proper prefix of their encodings and every single-byte damage of the nested length / vector-count bytes is fed to the same
+    registry (hundreds of refused or mis-framed parses, nested up to three levels), then the valid values are parsed again: same results."""
+    from pytoniq_core.tl.generator import TlGenerator
+    S = ref_schema()
+    libs = {'@type': 'liteServer.getLibraries', 'library_list': ['ab' * 32, 'cd' * 32]}
+    vals = [{'@type': 'liteServer.query', 'data': libs},
+            {'@type': 'adnl.message.query', 'query_id': 'ab' * 32, 'query': {'@type': 'liteServer.query', 'data': libs}},
+            {'@type': 'adnl.message.query', 'query_id': '01' * 32, 'query': {'@type': 'liteServer.query', 'data': {'@type': 'liteServer.query', 'data': {'@type': 'liteServer.getTime'}}}},
+            {'@type': 'liteServer.query', 'data': [{'@type': 'liteServer.getTime'}, {'@type': 'liteServer.getVersion'}]},
+            {'@type': 'dht.ping', 'random_id': 77}]
+    for fresh_first in (True, False):
+        L = TlGenerator.with_default_schemas().generate()
+        encs = [S.encode(v, True) for v in vals]
+        first = []
+        if not fresh_first:
+            for e in encs:
+                first.append(repr(L.deserialize(bytes(e))))
+        refused = accepted = 0
+        for e in encs:
+            damaged = [bytes(e[:k]) for k in range(0, len(e))]
+            for k in range(4, min(len(e), 48)):
+                for val in (0xff, 0xfe, 0x7f, (e[k] + 4) & 0xff):
+                    damaged.append(bytes(e[:k]) + bytes([val]) + bytes(e[k + 1:]))
+            for d in damaged:
+                rec.trans()
+                try:
+                    L.deserialize(d)
+                    accepted += 1
+                except Exception:
+                    refused += 1
+        rec.notes['tl-failure-history:refused'] = refused
+        for i, (v, e) in enumerate(zip(vals, encs)):
+            rec.case('failure-history')
+            rec.state(('failhist', i, fresh_first))
+            rec.nontriv(('failhist', i, fresh_first))
+            d = S.by_name[v['@type']][0]
+            args = {'value': i, 'fresh_first': fresh_first}
+            try:
+                back, used = L.deserialize(bytes(e))
+            except Exception as ex:
+                rec.violation('failure-history:raises', f'{v["@type"]} (value #{i}): parsed after {refused} refused / {accepted} mis-framed inputs on the same registry: {exc_name(ex)}: {ex}',
+                              'shard_failure_histories', args)
+                continue
+            rec.trace()
+            want = ('@', d.name, canon(S, d, expected_parse(S, L, d, v, True)))
+            got = ('@', back.get('@type') if isinstance(back, dict) else None, canon(S, d, back))
+            if got != want or used != len(e) or (first and repr((back, used)) != first[i]):
+                rec.violation('failure-history:value', f'{v["@type"]} (value #{i}): after {refused} refused / {accepted} mis-framed inputs on the same registry the valid encoding parses to '
+                              f'{str(back)[:200]} ({used} of {len(e)} bytes)', 'shard_failure_histories', args)
+                rec.outcome('HISTORY')
+                continue
+            rec.outcome('ok')
+    rec.covered('failure-history')
+
+
 # ------------------------------------------------------------------------------------------ registry under every listdir order
 def norm_type(s):
     return ' '.join(s.replace('(', ' ( ').replace(')', ' ) ').split())
@@ -756,6 +813,7 @@ def shards(tier, seed):
     parts = 30 if tier == 'quick' else 96
     for p in range(parts):
         out.append({'fn': 'shard_values', 'args': {'part': p, 'parts': parts}, 'prio': 1})
+    out.append({'fn': 'shard_failure_histories', 'args': {}, 'prio': 2})
     hp = 16 if tier == 'quick' else 48
     for p in range(hp):
         out.append({'fn': 'shard_pair_histories', 'args': {'part': p, 'parts': hp}, 'prio': 2})
